@@ -393,7 +393,7 @@ func (lm *levelManager) compactL0() {
 	}
 
 	// merge sstables
-	mergedEntries := kway.Merge(dataBlockList...)
+	mergedEntries := kway.MergeVersions(dataBlockList...)
 
 	discarded := lm.discardStaleEntries(mergedEntries)
 
@@ -480,7 +480,7 @@ func (lm *levelManager) compactLN(n int) {
 	dataBlockList = append(dataBlockList, dataBlockLN.Entries)
 
 	// merge sstables
-	mergedEntries := kway.Merge(dataBlockList...)
+	mergedEntries := kway.MergeVersions(dataBlockList...)
 
 	discarded := lm.discardStaleEntries(mergedEntries)
 
